@@ -511,7 +511,32 @@ TIERS = {'quick': {'runs': 10000, 'wall': 1200, 'det': 48, 'faultruns': 0},
          'thorough': {'runs': 200000, 'wall': 10800, 'det': 400, 'faultruns': 20000}}
 
 
+N_RANDOM = [None]
+_SYS = {}
+
+
+def systematic_histories(docs):
+    """C19's quantifier: 'all call sequences of length <= 3 ...'.  Over the whole alphabet that is 5e10
+    sequences; the part where a memo can go wrong is enumerated completely - for every cache key (13 schemas x
+    8 validator classes; 25 documents x 13 schemas, repository-relative spelling) EVERY sequence of two and
+    of three calls with that key (expect_failure in {False, True} at each position): 12 histories per key."""
+    k = len(docs)
+    if k not in _SYS:
+        import itertools
+        out = []
+        keys = [('sv', s_, 'rel', v) for s_ in SCHEMAS for v in VALIDATORS]
+        keys += [('va', d, 'rel', s_, 'rel') for d in docs for s_ in SCHEMAS]
+        for key in keys:
+            for n_ in (2, 3):
+                for efs in itertools.product((False, True), repeat=n_):
+                    out.append([key + (ef,) for ef in efs])
+        _SYS[k] = out
+    return _SYS[k]
+
+
 def history_for(master, i, docs, table):
+    if N_RANDOM[0] is not None and i >= N_RANDOM[0]:
+        return 'same-key-enumerated', systematic_histories(docs)[i - N_RANDOM[0]]
     rng = common.rng_for(PROP, master, i)
     return gen_history(rng, docs, table)
 
@@ -596,7 +621,8 @@ def main(tier_):
 
 
 def _main(tier_, master, cfg, docs, A, cwd, t0):
-    n = cfg['runs']
+    N_RANDOM[0] = cfg['runs']
+    n = cfg['runs'] + len(systematic_histories(docs))      # the seeded histories, then the enumerated ones
     # phase 0: which calls will the histories make?  (generation needs the table only as a bias, so
     # generate against the alphabet table first)
     table, files, socks = fresh_table(A, cwd)
